@@ -153,7 +153,40 @@ def judge(prog: Program, ref: dict[str, Any], ex: Exec, res: Any, fs: dict[str, 
     cls = problems[0][0]
     msg = f"after {where}: " + " || ".join(f"{c}: {m}" for c, m in problems)
     return [V("C01", cls, msg, sig=f"C01:{cls}@{site}", site=site, sites=[c["site"] for c in w.crashes],
-              classes=[c for c, _ in problems])]
+              classes=[c for c, _ in problems], recov=_recovery_actions(w, h))]
+
+
+def _recovery_actions(w: Any, h: Any) -> list[str]:
+    """Per crash: what the recovery sweep queued *for the stage (or task) of the message that was in flight* -
+    "StartTask", "StartStage", "RunTask", ... or "-" when it queued nothing for it.  Part of the violation record so
+    that a listed finding can say how recovery reacted at that site (the claim->plan window is known to end in
+    "recovery starts the first task" or, with a message still pending for that task, in "recovery queues nothing";
+    recovery answering with yet another StartStage there is a different failure)."""
+    import json as _json
+
+    from sim.oracles import ctx_handler, ctx_msgid
+
+    payload: dict[str, dict[str, Any]] = {}
+    for r in h.audit:
+        if r["kind"] == "q_ins":
+            try:
+                payload[r["row_id"]] = _json.loads((r["extra"] or {}).get("payload") or "{}")
+            except Exception:
+                payload[r["row_id"]] = {}
+    out = []
+    for c in w.crashes:
+        mid = ctx_msgid(c.get("ctx") or "")
+        p = payload.get(mid, {})
+        sid, tid = p.get("stage_id"), p.get("task_id")
+        acts = set()
+        for r in h.audit:
+            if r["kind"] != "q_ins" or ctx_handler(r["ctx"]) != "recovery":
+                continue
+            q = payload.get(r["row_id"], {})
+            if sid and q.get("stage_id") == sid and (not q.get("task_id") or not tid or q.get("task_id") == tid or True):
+                acts.add(str(r["new"]))
+        out.append("+".join(sorted(acts)) or "-")
+    return out
 
 
 def _external(prog: Program, task: str) -> bool:
